@@ -860,6 +860,18 @@ class Engine:
         return VU(t)
 
     def e_Tuple(self, st, node):
+        if any(isinstance(e, ast.Starred) for e in node.elts):
+            # (a, *xs): an opaque tuple value determined by its pieces
+            f = z3.Function("TUPLE2", U, U, U)
+            t = self.strconst("()")
+            for e in reversed(node.elts):
+                v = self.eval(st, e.value if isinstance(e, ast.Starred) else e)
+                if isinstance(v, (VInt, VBool)):
+                    u = z3.Function("INTU", IntS, U)(_as_int(v))
+                else:
+                    u = self.coerce(st, v, "U")
+                t = f(u, t)
+            return VU(t)
         return VTuple([self.eval(st, e) for e in node.elts])
 
     def e_List(self, st, node):
@@ -1084,6 +1096,10 @@ class Engine:
         if isinstance(container, VTuple):
             return z3.Or([self.equal(st, x, it) for it in container.items] or
                          [z3.BoolVal(False)])
+        if isinstance(container, VU) and isinstance(container.lit, str) and \
+                0 < len(container.lit) <= 8 and isinstance(x, VU):
+            # membership of a one-character string in a short literal string
+            return z3.Or([x.t == self.strconst(ch) for ch in container.lit])
         if isinstance(container, VList):
             if z3.is_int_value(container.n):
                 n = container.n.as_long()
